@@ -163,13 +163,17 @@ func (c *Chaos) GenBlock() {
 		blk.Missed = append(blk.Missed, AddrHex(c.pick(c.nodeKeys))) // sporadic miss
 	}
 	blk.Proposer = r.Intn(16)
-	if !c.Cfg.NoEvidence && r.Intn(25) == 0 && c.B.H > 12 {
+	if !c.Cfg.NoEvidence && r.Intn(12) == 0 && c.B.H > 12 {
 		v := c.pick(c.nodeKeys)
 		age := int64(r.Intn(3))
 		if r.Intn(5) == 0 {
 			age = 500 // too old
 		}
-		blk.Evidence = append(blk.Evidence, EvidenceSpec{Addr: AddrHex(v), Height: c.B.H - 1 - age, Time: c.elapsed - age*60, Power: 15000 + int64(r.Intn(8000))})
+		power := 15000 + int64(r.Intn(8000))
+		if r.Intn(3) == 0 {
+			power = 300000 + int64(r.Intn(400000)) // power at the time of the infraction far above today's stake: the slash must be capped at the stake
+		}
+		blk.Evidence = append(blk.Evidence, EvidenceSpec{Addr: AddrHex(v), Height: c.B.H - 1 - age, Time: c.elapsed - age*60, Power: power})
 	}
 	ntx := r.Intn(7)
 	for i := 0; i < ntx; i++ {
